@@ -121,6 +121,44 @@ def unbounded_bound(ctx):
     vlib.log("[tlaps] BatcherCore: %s" % info.get("status"))
 
 
+def ledger_phase(ctx, prop):
+    """The unbounded argument behind C06-C09: TLAPS proves BatcherLedger!Safety (NothingLost,
+    NothingTwice, InOrder, FlushMeansDone, RetryBounded, Bounded for every capacity, retry budget,
+    number of items and number of watchers); TLC checks that Batcher.tla - the specification the
+    code is bound to - implements BatcherLedger under the mapping in MCBatcher.tla, for five
+    constant sets.  A refinement failure is a design violation; an unavailable or timed-out prover
+    is recorded and does not change the verdict."""
+    import shutil
+    import subprocess
+    import re
+    states = 0
+    for k in (1, 2, 3, 4, 5):
+        r = ctx.tlc("MCBatcher", "Batcher_ledger%d.cfg" % k, workers=6, timeout=900,
+                    label="ledger%d" % k, coverage=False)
+        if r.violated:
+            ctx.spec_violation(r, "Batcher.tla does not implement BatcherLedger.tla (ledger%d: %s)" % (k, r.violated))
+            return
+        states += r.distinct or 0
+    info = {"refinement_configs": 5, "refinement_states": states, "prover": "tlapm", "status": "not run"}
+    work = os.path.join(ctx.out, "tlaps-ledger")
+    os.makedirs(work, exist_ok=True)
+    shutil.copy(os.path.join(vlib.SPEC, "BatcherLedger.tla"), work)
+    try:
+        p = subprocess.run(["tlapm", "--threads", "4", "BatcherLedger.tla"], cwd=work, timeout=900,
+                           stdout=subprocess.PIPE, stderr=subprocess.STDOUT, text=True)
+        m = re.search(r"All (\d+) obligations? proved", p.stdout)
+        if m:
+            info.update(status="proved", obligations=int(m.group(1)), discharged=int(m.group(1)),
+                        theorem="BatcherLedger!Safety: Spec => []Safe, for all Cap >= 1, MaxRetry, items, watchers")
+        else:
+            info.update(status="not proved", output=p.stdout[-600:])
+    except (OSError, subprocess.TimeoutExpired) as e:
+        info.update(status="prover unavailable or timed out: %s" % e)
+    ctx.cov["unbounded_ledger"] = info
+    vlib.log("[tlaps] BatcherLedger: %s (%s obligations); refinement %d states" % (
+        info.get("status"), info.get("obligations", "-"), states))
+
+
 def repo_tests_phase(ctx, prop):
     """Existing tests, stronger oracle: the unmodified test suites of emit_batcher (and, in the
     thorough tier or for C08, emit_file and emit_otlp, whose workers run on the channel) are run
@@ -253,6 +291,10 @@ def run(ctx, prop):
         unbounded_bound(ctx)
         from checks import fileset_common
         fileset_common.file_emitter_phase(ctx, "C09", clauses=("bounded",))
+
+    # ------------------------------------------------------------------ the unbounded ledger
+    if ctx.replay_case() is None:
+        ledger_phase(ctx, prop)
 
     # ------------------------------------------------------------------ the repository's own tests
     if prop in ("C06", "C08") and ctx.replay_case() is None:
